@@ -707,7 +707,7 @@ def plan_script_text(behaviour, capdir, datadir, verdict, model, shape, n):
 
 READ_MODES = ('all', 'pline', 'clause1', 'bytes', 'none')
 OUT_AT = ('end', 'start', 'mid')
-WATCHDOG_S = 120          # never reached on a bridge that works; the safety net against a hanging run
+WATCHDOG_S = 60           # never reached on a bridge that works; the safety net against a hanging run
 CONSUME_DEFAULT = {
     'read': 'all',        # all: to the end of the input; pline: up to the end of the problem line; clause1: up to the end of
                           # the first clause; bytes: 'nbytes' bytes; none: not a byte
